@@ -82,3 +82,12 @@ for _p in ('C02', 'C03'):
         stages=[dict(name='natmodel', bin='vnat', args=['-prop', _p], shards=shards(4, 12), par=12, crash_is_violation=True, crash_key='nat:crash')],
         need_counters=['outbound', 'inbound', 'mapping_reused', 'mapping_expired_then_recreated', 'inbound_admitted', 'inbound_must_refuse_no-permission', 'inbound_must_refuse_expired', 'exhaustion_histories', '1to1_in', '1to1_out'],
     )
+
+PROPS['C09'] = dict(
+    level='exploration', builds={'dl': dict(pkg='./cmd/dl', overlay='shim'), 'dl_race': dict(pkg='./cmd/dl', overlay='shim', race=True)},
+    stages=[dict(name='fake', bin='dl', args=['-mode', 'fake'], shards=shards(4, 16), par=16, crash_is_violation=True, crash_key='deadline:crash'),
+            dict(name='real@timer1', bin='dl_race', args=['-mode', 'real'], shards=shards(2, 6), par=6, env={'GODEBUG': 'asynctimerchan=1'}, crash_is_violation=True, crash_key='deadline:crash', replay='rerun'),
+            dict(name='real@timer0', bin='dl_race', args=['-mode', 'real'], shards=shards(2, 6), par=6, env={'GODEBUG': 'asynctimerchan=0'}, crash_is_violation=True, crash_key='deadline:crash', replay='rerun')],
+    replay_stage='fake',
+    need_counters=['stop_false_paths', 'stop_true_paths', 'real_sets', 'real_near_expiries_observed'],
+)
